@@ -142,6 +142,7 @@ class World:
         self.queue: Any = None
         self.pid_pool = 0
         self.last_pid = 4999
+        self.vanish: set = set()
 
     def alloc_pid(self, uid: int) -> int:
         if not self.pid_pool:
@@ -195,6 +196,7 @@ class World:
             self.deliver(sg)
         self.calls = 0
         self.mid = {}
+        self.vanish = set(ev.get("vanish", ()))
         for k, sg in ev.get("mid", ()):
             self.mid.setdefault(k, []).append(sg)
 
@@ -204,6 +206,11 @@ class World:
         live = [p for p in holders if p.state != "reaped"]
         p = (live or holders or [None])[-1]      # the process that has this number NOW (pids of reaped processes get reused)
         self.trace.append(["kill", p.uid if p else pid, int(sig), p.state if p else None])
+        if p is not None and p.state == "alive" and p.slot in self.vanish:
+            # the process exited (and was reaped, e.g. SIGCHLD ignored) between the manager's is_alive() and its os.kill()
+            p.state = "reaped"
+            self.trace.append(["die", p.slot, p.uid])
+            raise ProcessLookupError(pid)
         if p is None or p.state == "reaped":
             raise ProcessLookupError(pid)
         if p.state in ("alive", "terminating"):
